@@ -303,6 +303,40 @@ Definition all_exn : list exn :=
 Lemma all_exn_complete e : In e all_exn.
 Proof. destruct e; cbn; auto 20. Qed.
 
+(* ---- which procedure runs ---- *)
+Lemma extract_stored c a k : auth_type c = Some k -> extract_credentials (Some c) a = SelCreds c.
+Proof. intro H. unfold extract_credentials. now rewrite H. Qed.
+
+Lemma selected_stored c a k : auth_type c = Some k -> selected_procedure (Some c) a = Some (proc_of k).
+Proof. intro H. unfold selected_procedure. rewrite (extract_stored c a k H). now rewrite H. Qed.
+
+Lemma auth_type_transient : auth_type TRANSIENT_CREDENTIALS = Some KTransient.
+Proof. reflexivity. Qed.
+Lemma auth_type_none : auth_type NO_CREDENTIALS = Some KNull.
+Proof. reflexivity. Qed.
+
+Lemma extract_announced a c :
+  extract_credentials None a = SelCreds c -> c = TRANSIENT_CREDENTIALS \/ c = NO_CREDENTIALS.
+Proof.
+  unfold extract_credentials. destruct (announced_flags a) as [n|]; [|discriminate].
+  destruct (supports_transient n); intro H; inversion H; auto.
+Qed.
+
+(* credentials of type HAP: all four fields present and the key is not the transient marker *)
+Lemma auth_type_hap c :
+  auth_type c = Some KHAP <->
+  ltpk c <> [] /\ ltsk c <> [] /\ atv_id c <> [] /\ client_id c <> [] /\ ltpk c <> transient_marker.
+Proof.
+  unfold auth_type.
+  destruct (bytes_beq (ltpk c) transient_marker) eqn:Eb.
+  - apply bytes_beq_eq in Eb. rewrite Eb. cbn [is_empty transient_marker andb negb].
+    split; [discriminate|]. intros (_ & _ & _ & _ & H). congruence.
+  - apply bytes_beq_false in Eb.
+    destruct (ltpk c) as [|a1 l1], (ltsk c) as [|a2 l2], (atv_id c) as [|a3 l3], (client_id c) as [|a4 l4]; cbn [is_empty andb negb];
+      (split; [intro H; try discriminate H | intros (H1 & H2 & H3 & H4 & H5); try congruence]).
+    + repeat (split; [discriminate|]). exact Eb.
+Qed.
+
 (* a decidable predicate checked by the analyser on a list of skeletons holds on every execution *)
 Lemma lift (P : Skeleton.outcome -> st -> bool) (l : list cmd) :
   forallb (fun c => match an 4 c [s_init] with Some r => check P r | None => false end) l = true ->
